@@ -6,8 +6,10 @@ m="$1"; wt="$2"
 cd "$wt" || exit 2
 git checkout -q -- . ; git clean -fdq tests/tests examples 2>/dev/null
 res() { echo "{\"applies\": $1, \"suite_passes_with_change\": $2, \"demo_fails_with_change\": $3, \"demo_passes_without_change\": $4, \"note\": \"$5\"}" > "$m/verified.json"; cat "$m/verified.json"; }
-if ! git apply --3way "$m/patch.diff" 2>/tmp/vm_apply.err && ! git apply "$m/patch.diff" 2>>/tmp/vm_apply.err; then res false null null null "patch does not apply to current HEAD"; git checkout -q -- .; exit 0; fi
+src="$m/patch.diff"; [ -f "$m/patch_ported.diff" ] && src="$m/patch_ported.diff"
+if ! git apply --3way "$src" 2>/tmp/vm_apply.err && ! git apply "$src" 2>>/tmp/vm_apply.err; then res false null null null "patch does not apply to current HEAD"; git reset -q --hard HEAD; exit 0; fi
 git reset -q
+git diff > "$m/patch_current.diff"
 # demo files: *.rs under demo/ go to tests/tests/
 demos=$(ls "$m"/demo/*.rs 2>/dev/null)
 for d in $demos; do cp "$d" tests/tests/; done
